@@ -227,8 +227,15 @@ def run_check(check: Check, argv=None):
     ev = {"property_id": pid, "tier": args.tier, "seed": seed, "level": check.level,
           "coverage": cov, "assumptions": check.assumptions, "wall_s": round(wall, 2),
           "violations": len(viol)}
-    os.makedirs(os.path.join(VERIF, "evidence"), exist_ok=True)
-    with open(os.path.join(VERIF, "evidence", f"{pid}.json"), "w") as f:
+    # evidence/ describes runs against /repo itself; a maintenance run against another tree (FV_REPO, seeded changes)
+    # or of a slice of the cases (--filter / --limit) writes elsewhere
+    from . import harness as _h
+    evdir = os.path.join(VERIF, "evidence")
+    if os.path.realpath(_h.REPO) != "/repo" or args.filter or args.limit:
+        evdir = os.environ.get("FV_EVIDENCE_DIR", "/tmp/fv_evidence_scratch")
+    cov["tree"] = _h.REPO
+    os.makedirs(evdir, exist_ok=True)
+    with open(os.path.join(evdir, f"{pid}.json"), "w") as f:
         json.dump(ev, f, indent=1, default=str)
 
     if args.learn:
